@@ -88,7 +88,8 @@ class Ctx:
         self.work = os.path.join(VERIF, '.work', '%s_%d' % (prop, os.getpid()))
         shutil.rmtree(self.work, ignore_errors=True)
         os.makedirs(self.work)
-        self.out = os.path.join(VERIF, 'out', 'replay', prop)
+        self.alt = 'VERIF_REPO' in os.environ          # run against another checkout (seeded changes): keep /repo's evidence and replays untouched
+        self.out = os.path.join(VERIF, 'out', 'replay', prop) if not self.alt else os.path.join(VERIF, 'out', 'alt', '%s_%d' % (prop, os.getpid()), 'replay')
         shutil.rmtree(self.out, ignore_errors=True)
         os.makedirs(self.out, exist_ok=True)
         self.findings = Findings()
@@ -224,8 +225,9 @@ class Ctx:
         if extra: cov.update(extra)
         ev = dict(property_id=self.prop, tier=self.tier, seed=self.seed, level=level, coverage=cov,
                   assumptions=self.assumptions, wall_s=round(wall, 2), violations=len(self.violations))
-        os.makedirs(os.path.join(VERIF, 'evidence'), exist_ok=True)
-        with open(os.path.join(VERIF, 'evidence', self.prop + '.json'), 'w') as f:
+        evdir = os.path.join(VERIF, 'evidence') if not self.alt else os.path.dirname(self.out)
+        os.makedirs(evdir, exist_ok=True)
+        with open(os.path.join(evdir, self.prop + '.json'), 'w') as f:
             json.dump(ev, f, indent=1, default=str)
         shutil.rmtree(self.work, ignore_errors=True)
         print('%s %s: %d evaluations, %d traces validated, %d TLC states, %d known-finding hits, %d violations, %.1fs'
